@@ -17,16 +17,23 @@ for name in sorted(os.listdir(S)):
     summ = re.sub(r"\s+", " ", str(meta.get("summary", "")))[:230]
     needs = re.sub(r"\s+", " ", str(meta.get("needs_to_manifest", "")))[:200]
     cells = []
-    for pid, r in det.items():
+    nested = "without_corpus" in det
+    items = []
+    if nested:
+        items += [(k, v, "") for k, v in det["without_corpus"].items()]
+        items += [(k, v, " [with regression corpus]") for k, v in det.get("with_corpus", {}).items()]
+    else:
+        items = [(k, v, "") for k, v in det.items()]
+    for pid, r, tag in items:
         if not isinstance(r, dict):
             continue
         if r.get("rc") == 1:
             kinds = r.get("kinds", [])
             line = (r.get("lines") or [""])[0]
             how = "failing input found" if "no-failing-input-found" not in line else "broken correspondence / theorem, no failing input"
-            cells.append(f"{pid}: VIOLATION ({', '.join(kinds)}; {how}; {r.get('wall')} s)")
+            cells.append(f"{pid}{tag}: VIOLATION ({', '.join(kinds)}; {how}; {r.get('wall')} s)")
         else:
-            cells.append(f"{pid}: not detected ({r.get('wall')} s)")
+            cells.append(f"{pid}{tag}: not detected ({r.get('wall')} s)")
     rows.append(f"| {name} | {', '.join(conf.get('files', meta.get('files', [])))} | {summ} | {needs} | {'; '.join(cells)} |")
 print("| seeded change | files | what was changed | needs to manifest | checks run against it (quick tier) |")
 print("|---|---|---|---|---|")
